@@ -103,6 +103,10 @@ def to_number(v):
         return v
     if isinstance(v, str):
         s = v
+        if '_' in s or s.strip().lower().lstrip('+-') in (
+                'inf', 'infinity', 'nan'):
+            # Python's float()/int() read these; no spreadsheet does
+            return VALUE
         try:
             return int(s)
         except ValueError:
